@@ -380,10 +380,19 @@ def math (name : String) (a : JNum) : Option JNum :=
   | "length" => some (match a.repr with
       | .int i => if inI64 (-i) || i ≥ 0 then ⟨.int (if i < 0 then -i else i), none⟩ else ⟨.flt (intToFloat i).abs, none⟩
       | .flt f => ⟨.flt f.abs, none⟩)
+  | "trunc_i64" => some (match a.repr with | .int i => ofI (floatAsI64 (intToFloat i)) | .flt f => ofI (floatAsI64 f))
   | "trunc" => some (match a.repr with
       | .int i => ⟨.flt (intToFloat i), none⟩
       | .flt f => ⟨.flt (if f < 0 then f.ceil else f.floor), none⟩)
   | "sqrt" => some ⟨.flt a.toF.sqrt, none⟩
+  -- libm functions (platform `libm` through Lean's `Float`; used by the jq-1.7.1 dialect only, where the
+  -- recorded cases round the results)
+  | "sin" => some (ofF a.toF.sin) | "cos" => some (ofF a.toF.cos) | "tan" => some (ofF a.toF.tan)
+  | "asin" => some (ofF a.toF.asin) | "acos" => some (ofF a.toF.acos) | "atan" => some (ofF a.toF.atan)
+  | "sinh" => some (ofF a.toF.sinh) | "cosh" => some (ofF a.toF.cosh) | "tanh" => some (ofF a.toF.tanh)
+  | "exp" => some (ofF a.toF.exp) | "exp2" => some (ofF a.toF.exp2) | "exp10" => some (ofF (Float.pow 10.0 a.toF))
+  | "log" => some (ofF a.toF.log) | "log2" => some (ofF a.toF.log2) | "log10" => some (ofF a.toF.log10)
+  | "cbrt" => some (ofF a.toF.cbrt)
   | "fabs" => some ⟨.flt a.toF.abs, none⟩
   | _ => none
 where
@@ -412,6 +421,11 @@ instance : NumOps JNum where
   nan := ⟨.flt (0.0 / 0.0), none⟩
   inf := ⟨.flt (1.0 / 0.0), none⟩
   canon := JNum.canon
+  math2 := fun name a b =>
+    match name with
+    | "pow" => some (JNum.ofF (Float.pow a.toF b.toF))
+    | "atan2" => some (JNum.ofF (Float.atan2 a.toF b.toF))
+    | _ => none
 
 /-! ### printing -/
 section print
